@@ -455,6 +455,8 @@ def _enum(tier, ops_alpha, maxlen_deltas):
                     if md and tier == 'quick' and cs != 3:
                         continue  # quick tier: the max-length > data variant only where 3-byte delimiters fit
                     for h in hist:
+                        if len(h) == 3 and len(data) > 4:
+                            continue  # thorough: 3-operation histories over data of length <= 4, shorter ones up to 5
                         ops = [ops_alpha[i] for i in h]
                         if any(len(o[1]) > cs for o in ops if o[0] in ('read_until', 'pipe_until', 'delimit')):
                             continue
@@ -464,7 +466,7 @@ def _enum(tier, ops_alpha, maxlen_deltas):
 class SyncEnum(Suite):
     """Sync BufferedReader: ALL histories of <= 2 (quick) / <= 3 (thorough) operations from a 17-operation
     alphabet (reads, peeks, delimited reads with/without size cap and delimiter consumption, pipe_until,
-    readline, exhaust, two nested delimit() forms) x all data strings of length <= 4/5 over {a, b, -} x
+    readline, exhaust, two nested delimit() forms) x all data strings of length <= 4 (<= 5 for histories of <= 2 operations in the thorough tier) over {a, b, -} x
     chunk sizes 1-3 x two short-read patterns, compared step by step with the cursor model."""
 
     name = 'sync_enum'
